@@ -5,6 +5,7 @@ package dpt
 
 import (
 	"fmt"
+	"math"
 )
 
 // DPT_8001 represents DPT 8.001 / Counter.
@@ -45,11 +46,24 @@ func (d DPT_8002) String() string {
 	return fmt.Sprintf("%d ms", int16(d))
 }
 
+// scaleToV16 rounds a scaled value to the nearest integer and saturates it at the int16 bounds.
+func scaleToV16(scaled float64) int16 {
+	scaled = math.Round(scaled)
+
+	if scaled >= math.MaxInt16 {
+		return math.MaxInt16
+	} else if scaled <= math.MinInt16 {
+		return math.MinInt16
+	}
+
+	return int16(scaled)
+}
+
 // DPT_8003 represents DPT 8.003 / delta time ms (range -327.68 s ... 327.67 s)
 type DPT_8003 float32
 
 func (d DPT_8003) Pack() []byte {
-	return packV16(int16(d * 100))
+	return packV16(scaleToV16(float64(d) * 100))
 }
 
 func (d *DPT_8003) Unpack(data []byte) error {
@@ -76,7 +90,7 @@ func (d DPT_8003) String() string {
 type DPT_8004 float32
 
 func (d DPT_8004) Pack() []byte {
-	return packV16(int16(d * 10))
+	return packV16(scaleToV16(float64(d) * 10))
 }
 
 func (d *DPT_8004) Unpack(data []byte) error {
@@ -160,7 +174,7 @@ func (d DPT_8007) String() string {
 type DPT_8010 float32
 
 func (d DPT_8010) Pack() []byte {
-	return packV16(int16(d * 100))
+	return packV16(scaleToV16(float64(d) * 100))
 }
 
 func (d *DPT_8010) Unpack(data []byte) error {
